@@ -131,6 +131,7 @@ def seq_case(name, rng: random.Random, length=12, obs_every=True, big=0.08, allo
     keys = key_pool(kt, rng, rng.choice([2, 3, 4]))
     contents = content_pool(rng, rng.choice([2, 3, 4]), big)
     lines = [f"case {name}", f"cfg kt={kt} n={n} sync={sync}", "open"]
+    holds, readers_ok = [], True
     if obs_every:
         lines.append("obs")
     for _ in range(length):
@@ -145,6 +146,9 @@ def seq_case(name, rng: random.Random, length=12, obs_every=True, big=0.08, allo
         elif r < 0.68:
             lo, hi = bounds(kt, keys, rng)
             lines.append(f"remove_range {lo} {hi}")
+        elif r < 0.70 and readers_ok:
+            slot = f"r{len(holds)}"
+            lines.append(f"hold {slot} {k}"); holds.append(slot)
         elif r < 0.74:
             lines.append("checkpoint")
         elif r < 0.84 and allow_reopen:
@@ -172,7 +176,54 @@ def seq_case(name, rng: random.Random, length=12, obs_every=True, big=0.08, allo
             lines.append("obs")
     for k in keys:
         lines.append(f"get {hexs(k)}")
+    for slot in holds:
+        lines.append(f"drain {slot}")
     lines += ["iter", "stats", "blobs", "close", "open", "obs", "close", "end"]
+    return "\n".join(lines) + "\n"
+
+
+def bulk_case(name, rng: random.Random):
+    """Many keys at once: histories whose ranges span hundreds of keys, so that anything done per
+    batch, per page or per chunk of keys is exercised past its first unit."""
+    kt = rng.choice(["u32", "i64", "bytes", "string"])
+    nk = rng.choice([129, 130, 200, 257, 300, 385, 513])
+    vals = rng.sample(range(-400, 400) if kt == "i64" else range(0, 800), nk)
+    if kt == "u32":
+        keys = [struct.pack("<I", v * 257 % 100003) for v in vals]
+    elif kt == "i64":
+        keys = [struct.pack("<q", v * 1000003) for v in vals]
+    else:
+        keys = [b"k%03d" % v for v in vals]
+    keys = list(dict.fromkeys(keys))
+    contents = [hexs(bytes([65 + i]) * (i + 1)) for i in range(4)]
+    n = rng.choice([7, 100, 1000])
+    lines = [f"case {name}", f"cfg kt={kt} n={n} sync=0", "open"]
+    for k in keys:
+        lines.append(f"put {hexs(k)} {rng.choice(contents)}")
+    lines += ["iter", "stats"]
+    srt = sorted(keys, key=lambda b: sort_key(kt, b))
+    for _ in range(3):
+        q = rng.random()
+        if q < 0.35:
+            lo, hi = "U", "U"
+        else:
+            i = rng.randrange(0, len(srt) // 3)
+            j = rng.randrange(max(i + 129, len(srt) * 2 // 3), len(srt) + 1) if len(srt) - i > 130 else len(srt)
+            j = min(j, len(srt))
+            lo = ("I:" if rng.random() < 0.5 else "E:") + hexs(srt[i])
+            hi = "U" if j >= len(srt) else ("I:" if rng.random() < 0.5 else "E:") + hexs(srt[j])
+        if rng.random() < 0.4:
+            lines.append(f"riter {lo} {hi}")
+        lines.append(f"remove_range {lo} {hi}")
+        lines += ["iter", "stats", "blobs"]
+        for k in rng.sample(keys, 4):
+            lines.append(f"get {hexs(k)}")
+        if rng.random() < 0.5:
+            lines += ["close", "open", "iter", "stats"]
+        for k in rng.sample(keys, min(len(keys), 140)):
+            lines.append(f"put {hexs(k)} {rng.choice(contents)}")
+        srt = sorted(keys, key=lambda b: sort_key(kt, b))
+    lines += ["iter", "stats", "blobs", "obs", "close", "open", "obs", "close", "end"]
     return "\n".join(lines) + "\n"
 
 
